@@ -126,7 +126,7 @@ class Box:
 
     def add_tree(self, branch, spec):
         """Write blobs, trees and one commit for spec; point refs/heads/<branch> at the commit."""
-        tree, blobs = tree_of(spec)
+        tree, blobs = spec if isinstance(spec, tuple) and len(spec) == 2 and isinstance(spec[0], dict) else tree_of(spec)
         objdir = os.path.join(self.gitdir, "objects")
         for h, data in blobs.items():
             wm.write_loose(objdir, b"blob", data)
@@ -169,6 +169,8 @@ class Box:
     def read_index(self):
         """Independent parse of .git/index -> ({path: (mode, hexid)}, {path: stat-clean?}, problem|None)."""
         p = os.path.join(self.gitdir, "index")
+        self.tree_ext = False
+        self.cache_tree_problem = None
         if not os.path.exists(p):
             return {}, {}, None
         with open(p, "rb") as f:
@@ -179,6 +181,12 @@ class Box:
             return None, None, "undecodable(%s)" % e.code
         if parsed.problems:
             return None, None, "malformed(%s)" % ",".join(parsed.codes())
+        self.tree_ext = False
+        self.cache_tree_problem = None
+        for sig, payload, _ in parsed.extensions:
+            if sig == b"TREE":
+                self.tree_ext = True
+                self.cache_tree_problem = cache_tree_problem(payload, [(e.name, e.mode, e.sha.hex().encode("ascii")) for e in parsed.entries])
         idx, clean = {}, {}
         for e in parsed.entries:
             if e.stage != 0:
@@ -195,6 +203,10 @@ class Box:
                 clean[e.name] = False
         return idx, clean, None
 
+    def has_tree_extension(self):
+        self.read_index()
+        return self.tree_ext
+
     def close(self):
         if self._repo is not None:
             try:
@@ -202,6 +214,46 @@ class Box:
             except Exception:
                 pass
         rmtree(self.root)
+
+
+def cache_tree_problem(payload, listing):
+    """gitformat-index "Cache tree": per node  path NUL  entry_count SP subtree_count LF  [20-byte id when
+    entry_count >= 0], depth first.  Every *valid* node (entry_count >= 0) must describe the index entries below
+    its path: their number and the id of the tree they hash to.  Returns None or a short description."""
+    if not gittree.consistent(listing):
+        return None  # reported elsewhere
+    built = gittree.build(listing)
+    pos = [0]
+
+    def node(prefix, top):
+        z = payload.index(b"\0", pos[0])
+        name = payload[pos[0]:z]
+        nl = payload.index(b"\n", z)
+        count, subtrees = (int(x) for x in payload[z + 1:nl].split(b" "))
+        pos[0] = nl + 1
+        oid = None
+        if count >= 0:
+            oid = payload[pos[0]:pos[0] + 20].hex().encode("ascii")
+            pos[0] += 20
+        path = b"" if top else (prefix + b"/" + name if prefix else name)
+        out = []
+        if count >= 0:
+            pre = path + b"/" if path else b""
+            n = sum(1 for q, _, _ in listing if q.startswith(pre))
+            want = built.trees.get(path)
+            if want is None or n != count or want[0] != oid:
+                out.append("%s: cached %d entries/%s, index has %d/%s" % (_pn(path) or "<root>", count, oid[:8].decode(), n, want[0][:8].decode() if want else "no such directory"))
+        for _ in range(subtrees):
+            out += node(path, False)
+        return out
+
+    try:
+        probs = node(b"", True)
+        if pos[0] != len(payload):
+            return "trailing bytes in TREE extension"
+    except (ValueError, IndexError):
+        return "undecodable TREE extension"
+    return "; ".join(probs) if probs else None
 
 
 # --------------------------------------------------------------------------- classification (violation keys)
@@ -325,6 +377,8 @@ def path_class(component, head, index, wd, p):
     q = p.rstrip(b"/")
     if component == "untracked":
         cls = ("tracked-" if q in index else "") + wd_kind(wd, index, p)
+        if p.endswith(b"/") and any(n.startswith(p) for n in index):
+            cls = "directory-with-tracked-files"
     elif component == "unstaged":
         if q not in index:
             cls = "not-in-index(%s)" % wd_kind(wd, index, p)
@@ -396,6 +450,10 @@ def judge(acc, box, head, where, desc, rpl, use_git=True, git_modes=("normal", "
         return None
     if any(m not in (REG, EXE, LNK) for _, m, _ in listing):
         acc.violation("%s:index-file:unexpected-entry-mode" % where, "%s: %r" % (desc, [(p, oct(m)) for p, m, _ in listing]), rpl)
+        return None
+    if box.cache_tree_problem:
+        acc.violation("%s:index-file:stale-cache-tree" % where,
+                      "%s: the TREE extension left in the index does not describe its entries (%s); git trusts it" % (desc, box.cache_tree_problem), rpl)
         return None
     want_tid = gittree.build(listing).root
     # Index.commit
@@ -687,16 +745,44 @@ def _all_nodes(*trees):
 # --------------------------------------------------------------------------- (3) edit sequences
 
 STARTS = {
-    # id: (tree spec, edit paths)
-    "S1": (((b"a", "P"),), [b"a", b"u"]),
-    "S2": (((b"a", "PX"), (b"b", "L")), [b"a", b"b"]),
-    "S3": (((b"d/x", "X"), (b"d/y", "P")), [b"d/x", b"d"]),
-    "S4": (((b"\xc3\xa9", "E"), (b"\xff\xfe", "B")), [b"\xc3\xa9", b"\xff\xfe"]),
-    "S5": (((b'"q"', "P"), (b"a b", "X")), [b'"q"', b"a b"]),
-    "S6": (((b"a", "X"), (b"d/e/z", "P")), [b"d/e/z", b"d/e"]),
-    "S7": (((b"a", "X"),), [b"a", b"n/u"]),
-    "S8": (((b"a", "P"), (b"b", "X")), [b"a", b"b"]),
+    # id: (tree spec, edit paths, prelude) -- the prelude is executed (and judged) before the search starts
+    "S1": (((b"a", "P"),), [b"a", b"u"], ()),
+    "S2": (((b"a", "PX"), (b"b", "L")), [b"a", b"b"], ()),
+    "S3": (((b"d/x", "X"), (b"d/y", "P")), [b"d/x", b"d"], ()),
+    "S4": (((b"\xc3\xa9", "E"), (b"\xff\xfe", "B")), [b"\xc3\xa9", b"\xff\xfe"], ()),
+    "S5": (((b'"q"', "P"), (b"a b", "X")), [b'"q"', b"a b"], ()),
+    "S6": (((b"a", "X"), (b"d/e/z", "P")), [b"d/e/z", b"d/e"], ()),
+    "S7": (((b"a", "X"),), [b"a", b"n/u"], ()),
+    "S8": (((b"a", "P"), (b"b", "X")), [b"a", b"b"], ()),
+    # a tracked directory beside a tracked name that sorts between "d" and "d/"; untracked file inside it
+    "S9": (((b"d-", "P"), (b"d/x", "X")), [b"d/u", b"d-"], ()),
+    # index records another blob than HEAD while the file has HEAD's content again (edit, stage, edit back)
+    "S10": (((b"a", "P"), (b"b", "X")), [b"a"], (("same", b"a"), ("stage", b"a"), ("same", b"a"))),
+    # start states whose index file was last written by C git (cache-tree extension present)
+    "S11": (((b"a", "P"), (b"b", "X")), [b"a"], (("git_reset",),)),
+    "S12": (((b"d/x", "X"), (b"d/y", "P")), [b"d/y"], (("git_write_tree",),)),
 }
+GIT_OPS = ("git_reset", "git_write_tree")  # git_reset = read-tree HEAD + update-index --refresh
+TERMINAL = ("reset_hard", "switch_force")  # judged, never extended: the model does not predict their result
+
+
+def alt_tree(sid):
+    """Branch B of a start: the start tree with the first non-empty tracked regular file changed exactly as the
+    edit `same` changes it — so `same(p)` followed by a forced switch finds the file already equal to the target."""
+    spec, paths, _ = STARTS[sid]
+    tree, blobs = tree_of(spec)
+    order = [p for p in paths if p in tree] + sorted(tree)
+    for p in order:
+        mode, h = tree[p]
+        if mode != LNK and blobs[h]:
+            data = bytes([blobs[h][0] ^ 1]) + blobs[h][1:]
+            tree = dict(tree)
+            blobs = dict(blobs)
+            nh = wm.blob_id(data)
+            tree[p] = (mode, nh)
+            blobs[nh] = data
+            return tree, blobs
+    raise AssertionError(sid)
 
 
 class MState:
@@ -715,7 +801,7 @@ def link_targets(p, paths):
     return t
 
 
-def menu(st, paths):
+def menu(st, paths, alt=None):
     ops = []
     for p in paths:
         e = wm.wd_lookup(st.wd, p)
@@ -751,6 +837,15 @@ def menu(st, paths):
         if p in st.index:
             ops.append(("rmc", p))
     ops.append(("stage_all",))
+    if alt is not None:
+        # discard-everything operations, from states without file/directory clashes at any tracked path
+        involved = set(st.head) | set(st.index) | set(alt)
+        calm = all(
+            wm.wd_lookup(st.wd, p) != "dir" and all(wm.wd_lookup(st.wd, q) in (None, "dir") for q in wm.prefixes(p)) for p in involved
+        )
+        if calm:
+            ops.append(("reset_hard",))
+            ops.append(("switch_force",))
     return ops
 
 
@@ -779,6 +874,8 @@ def _m_parents(wd, p):
 def m_apply(st, op):
     """Pure model of one operation -> new MState."""
     k = op[0]
+    if k in GIT_OPS or k in TERMINAL:
+        return MState(st.head, st.index, st.wd)  # (the result of a terminal operation is observed, not predicted)
     if k == "stage_all":
         return MState(st.head, wm.m_stage_all(st.index, st.wd), st.wd)
     p = op[1]
@@ -835,6 +932,22 @@ def real_apply(box, op):
     if k == "stage_all":
         porcelain.add(r, paths=["."])
         return
+    if k in GIT_OPS:
+        # C git rewrites the index file (same entries) and leaves a cache-tree extension in it
+        if k == "git_reset":
+            git(["read-tree", "HEAD"], cwd=box.root)  # index rebuilt from HEAD (cache-tree primed), stat data zeroed ...
+            git(["update-index", "-q", "--refresh"], cwd=box.root, check=False)  # ... and refreshed from the files (exit 1: some differ)
+        else:
+            git(["write-tree"], cwd=box.root)
+        if not box.has_tree_extension():
+            raise HarnessError("%s did not leave a TREE extension in the index" % k)
+        return
+    if k == "reset_hard":
+        porcelain.reset(r, "hard", "HEAD")
+        return
+    if k == "switch_force":
+        porcelain.checkout(r, b"B", force=True)
+        return
     p = op[1]
     full = box.full(p)
     if k == "stage":
@@ -884,11 +997,13 @@ def op_str(op):
     return "%s(%s)" % (op[0], ",".join(_pn(a) for a in op[1:]))
 
 
-OP_API = {"stage": "porcelain.add(path)", "stage_all": "porcelain.add(.)", "unstage": "WorkTree.unstage", "rmc": "porcelain.remove(cached)"}
+OP_API = {"stage": "porcelain.add(path)", "stage_all": "porcelain.add(.)", "unstage": "WorkTree.unstage", "rmc": "porcelain.remove(cached)",
+          "reset_hard": "porcelain.reset(hard)", "switch_force": "porcelain.checkout(force)"}
 
 
-def state_key(st, clean):
+def state_key(st, clean, tree_ext=False):
     return (
+        bool(tree_ext),
         tuple(sorted((p, m, h, bool(clean.get(p))) for p, (m, h) in st.index.items())),
         tuple(sorted((p, e[0], wm.blob_id(e[1]) if e[0] == "f" else (e[1] if e[0] == "l" else b""), e[2] if e[0] == "f" else False) for p, e in st.wd.items())),
     )
@@ -911,12 +1026,13 @@ def run_edits(acc, sid, ops, use_git, judge_last=True, expect_key=None):
     """Fresh checkout of STARTS[sid], then ops.  Every step is followed by a status call; the last step
     is judged.  Returns (state key, MState) of the final state or None when model and implementation
     have diverged (a violation has been recorded)."""
-    spec, paths = STARTS[sid]
+    spec, paths, _prelude = STARTS[sid]
     box = Box()
     ops = [tuple(bytes(a) if isinstance(a, (bytes, bytearray)) else a for a in op) for op in ops]
     rpl = rp(case_edits, sid, ops, True)
     try:
         tree, tid, cid = box.add_tree("A", spec)
+        alt, _, alt_cid = box.add_tree("B", alt_tree(sid))
         try:
             do_checkout(box, "porcelain.checkout", "A")
         except Exception as e:
@@ -932,7 +1048,7 @@ def run_edits(acc, sid, ops, use_git, judge_last=True, expect_key=None):
             r = judge(acc, box, tree, "checkout:porcelain.checkout", "start %s %s" % (sid, spec_str(spec)), rpl, use_git=use_git)
             if r is None:
                 return None
-            return state_key(st, r[1]), st
+            return state_key(st, r[1], box.tree_ext), st
         for i, op in enumerate(ops):
             last = i == len(ops) - 1
             desc = "%s %s; %s" % (sid, spec_str(spec), " ; ".join(op_str(o) for o in ops[: i + 1]))
@@ -954,6 +1070,13 @@ def run_edits(acc, sid, ops, use_git, judge_last=True, expect_key=None):
                 acc.violation("op:%s:raises:%s%s" % (OP_API[k], raised(e), refused), "%s: %r" % (desc, e), rpl)
                 return None
             wd = wm.walk(box.rootb)
+            if k in TERMINAL:
+                if not last:
+                    raise HarnessError("terminal operation inside a prefix: %s" % desc)
+                acc.count("transitions")
+                acc.outcome("op:%s" % k)
+                judge_discard(acc, box, st, alt if k == "switch_force" else st.head, k, alt_cid if k == "switch_force" else cid, wd, desc, rpl, use_git)
+                return None
             if is_index_op:
                 if wd != st.wd:
                     if not last:
@@ -990,7 +1113,7 @@ def run_edits(acc, sid, ops, use_git, judge_last=True, expect_key=None):
                 if r is None:
                     return None
             st = new
-            key = state_key(st, clean)
+            key = state_key(st, clean, box.tree_ext)
             if expect_key is not None and key != expect_key:
                 raise HarnessError("replay of %s reached a different state" % desc)
             return key, st
@@ -998,12 +1121,47 @@ def run_edits(acc, sid, ops, use_git, judge_last=True, expect_key=None):
         box.close()
 
 
+def judge_discard(acc, box, st, target, k, want_cid, wd, desc, rpl, use_git):
+    """After reset --hard HEAD / a forced switch to B from a dirty state: HEAD names the target commit, the index
+    entry and the file of every path concerned equal the target tree (reset: every path of HEAD or the index;
+    forced switch: the paths that differ between the two trees — dulwich documents nothing more for the others),
+    and status is exact for whatever the state now is."""
+    where = "op:%s" % OP_API[k]
+    ok = head_tree_ok(acc, where, box, want_cid, desc, rpl)
+    idx, _, problem = box.read_index()
+    if problem:
+        judge(acc, box, target, where, desc, rpl, use_git=use_git)
+        return
+    if k == "reset_hard":
+        concerned = sorted(set(target) | set(st.index))
+    else:
+        concerned = sorted(p for p in set(st.head) | set(target) if st.head.get(p) != target.get(p))
+    want_wd = wm.wd_of_tree(target, box.blobs)
+    for p in concerned:
+        if idx.get(p) != target.get(p):
+            ok = False
+            cls = "entry-missing" if p not in idx else "entry-not-removed" if p not in target else "entry-wrong(%s,expected-%s)" % (diff_class(target[p], idx[p]), ent_kind(target[p]))
+            acc.violation("%s:index-wrong:%s:was-%s" % (where, cls, "unchanged-in-index" if st.index.get(p) == st.head.get(p) else "staged"),
+                          "%s: index entry %s is %r, target tree has %r" % (desc, _pn(p), idx.get(p), target.get(p)), rpl)
+            break
+    for p in concerned:
+        e = wm.wd_lookup(wd, p)
+        w = want_wd.get(p)
+        if (e if isinstance(e, tuple) else None) != w or (w is None and e is not None):
+            ok = False
+            what = "missing" if e is None else "not-removed" if w is None else "wrong-type" if not isinstance(e, tuple) or e[0] != w[0] else "wrong-content" if e[1] != w[1] else "wrong-exec-bit"
+            acc.violation("%s:worktree-wrong:%s" % (where, what), "%s: %s is %s, target tree says %s" % (desc, _pn(p), _short(e) if isinstance(e, tuple) or e is None else e, _short(w)), rpl)
+            break
+    acc.outcome("discard:%s:%s" % (k, "ok" if ok else "failed"))
+    judge(acc, box, target, where, desc, rpl, use_git=use_git)
+
+
 def case_edits(acc, sid, ops, use_git):
     run_edits(acc, sid, [tuple(o) for o in ops], use_git)
 
 
 def model_state(sid, ops):
-    spec, _ = STARTS[sid]
+    spec = STARTS[sid][0]
     tree, blobs = tree_of(spec)
     st = MState(tree, dict(tree), wm.wd_of_tree(tree, blobs))
     for op in ops:
@@ -1017,7 +1175,7 @@ def work_level(task):
     out = []
     for sid, ops in nodes:
         st = model_state(sid, ops)
-        for op in menu(st, STARTS[sid][1]):
+        for op in menu(st, STARTS[sid][1], alt_tree(sid)[0]):
             r = run_edits(acc, sid, list(ops) + [op], use_git)
             if r is None:
                 continue
@@ -1030,11 +1188,11 @@ def bfs(ctx, depth, use_git):
     level = []
     acc0 = Acc()
     for sid in sorted(STARTS):
-        r = run_edits(acc0, sid, [], use_git)
+        r = run_edits(acc0, sid, list(STARTS[sid][2]), use_git)
         if r is None:
             continue
         seen.add((sid, r[0]))
-        level.append((sid, []))
+        level.append((sid, list(STARTS[sid][2])))
     ctx.acc.merge(acc0)
     states = len(level)
     per_level = [states]
@@ -1070,6 +1228,20 @@ def trees_phase1(max_entries, kinds3=None):
             ks = KINDS1 if (n < 3 or kinds3 is None) else kinds3
             for kinds in itertools.product(ks, repeat=n):
                 out.append(tuple(zip(names, kinds)))
+    return out
+
+
+# names around the position of "/" (0x2f) in the sort order: "d x" < "d-" < "d.x" < "d/..." < "d0"; same one level down
+COLLIDE = [b"d x", b"d-", b"d.x", b"d/x", b"d0", b"d/e-", b"d/e.z", b"d/e/z"]
+
+
+def trees_collide():
+    """Every tree of <= 3 of the sort-adjacent names (1-byte files) that contains a directory."""
+    out = []
+    for n in (2, 3):
+        for names in itertools.combinations(COLLIDE, n):
+            if any(b"/" in nm for nm in names):
+                out.append(tuple((nm, "X") for nm in names))
     return out
 
 
@@ -1135,6 +1307,7 @@ def run(ctx):
     us = universes(not q)
     extra = sorted(set(t for _, u in us[: 1 + len(SPECIAL)] for t in u) - set(trees))
     trees += extra
+    trees += [t for t in trees_collide() if t not in set(trees)]
     # three-entry trees of the thorough tier: one entry point each (alternating), everything else: both
     rt = [(t, m) for i, t in enumerate(trees) for j, m in enumerate(CHECKOUTS) if q or len(t) < 3 or (i + j) % 2 == 0]
     tasks = [("roundtrip", part, True) for part in split(ctx.order(rt), J)]
@@ -1172,16 +1345,19 @@ def run(ctx):
             "roundtrip_trees": len(trees), "roundtrip_cases": len(rt), "roundtrip_methods": list(CHECKOUTS),
             "roundtrip_max_entries": 2 if q else 3, "roundtrip_three_entry_kinds": Q3 if q else KINDS1,
             "switch_universes": [(name, len(u)) for name, u in us], "switch_ordered_pairs": len(pairs), "switch_methods": list(SWITCHES),
-            "edit_depth": stats["depth_completed"], "edit_starts": sorted(STARTS), "edit_states_per_level": stats["states_per_level"],
+            "edit_depth": stats["depth_completed"], "edit_starts": sorted(STARTS), "sort_adjacent_names": [_pn(x) for x in COLLIDE], "edit_states_per_level": stats["states_per_level"],
         },
         rule=(
             "(1) every tree of <=%d entries over names %r x kinds %r%s, checked out by %r; (2) all ordered pairs inside each slot universe %r switched by %r; "
             "(3) BFS to depth %d from %d start trees over {same-size edit, size-changing edit, chmod, delete, ->file, ->symlink(2 targets), ->directory, "
             "porcelain.add(path), WorkTree.unstage, porcelain.remove(cached)} on two paths each + porcelain.add(.), states merged on (index, directory, "
             "per-entry stat-clean flag), every transition re-executed from a fresh checkout; porcelain.status (normal and all, live and fresh Repo) judged in every state "
-            "against the three-dict model, the model checked against C git status/write-tree in every judged end state."
+            "against the three-dict model, the model checked against C git status/write-tree in every judged end state. Also: every tree of 2-3 names that sort around '/' "
+            "(%r) in (1); start states with a prelude (edit, stage, edit back; index rewritten by C git so that it holds a cache-tree extension, which must stay consistent with "
+            "the entries after every dulwich write); porcelain.reset(hard, HEAD) and porcelain.checkout(B, force=True) from every state without file/directory clashes, as final steps "
+            "(index and files of the paths concerned must equal the target tree)."
             % (2 if q else 3, [_pn(x) for x in NAMES], KINDS1, " + all 3-entry trees over kinds %r" % Q3 if q else " (3-entry trees: the two entry points alternate)", list(CHECKOUTS),
-               [(name, len(u)) for name, u in us], list(SWITCHES), stats["depth_completed"], len(STARTS))
+               [(name, len(u)) for name, u in us], list(SWITCHES), stats["depth_completed"], len(STARTS), [_pn(x) for x in COLLIDE])
         ),
         git_status_calls=n.get("git_status_calls", 0),
         git_write_tree_calls=n.get("git_write_tree_calls", 0),
